@@ -107,6 +107,9 @@ func (s *flexSut) doAppend(k int) bool {
 	if !c.Guard("Append", func() { s.f.Append(arg...) }) {
 		return false
 	}
+	for i := range arg {
+		arg[i] = -8888 - i
+	}
 	s.m = append(s.m, vs...)
 	if c.Logging() {
 		c.Logf("Append(%v) -> len %d cap %d", vs, len(s.f.Values), cap(s.f.Values))
@@ -129,6 +132,10 @@ func (s *flexSut) doPrepend(k int) bool {
 	arg := clone(vs)
 	if !c.Guard("Prepend", func() { s.f.Prepend(arg...) }) {
 		return false
+	}
+	// the caller goes on using its own slice: the FlexSlice must hold copies
+	for i := range arg {
+		arg[i] = -7777 - i
 	}
 	s.m = append(clone(vs), s.m...)
 	if c.Logging() {
